@@ -24,6 +24,7 @@ from myst_parser.config.main import (
 )
 from myst_parser.mdit_to_docutils.base import DocutilsRenderer
 from myst_parser.mdit_to_docutils.transforms import (
+    CleanDocumentTitle,
     CollectFootnotes,
     HideNestedTransitions,
     ResolveAnchorIds,
@@ -254,6 +255,7 @@ class Parser(RstParser):
 
     def get_transforms(self):
         return super().get_transforms() + [
+            CleanDocumentTitle,
             UnreferencedFootnotesDetector,
             SortFootnotes,
             CollectFootnotes,
